@@ -373,6 +373,73 @@ exp("update", U, "harmless", "the messages are rendered before the diff is shown
     also=[(DRY_RET, "    if dry or verbose >= 2:\n        _print_diff(cfg, new_version)\n\n" + DRY_RET)])
 
 
+# ---------------------------------------------------------------------------------------------------
+# whole-function rewrites taken from an independent behaviour-preserving refactoring of cli.py
+# (`not (a or b)` for `not a and not b`, `is_old_pattern` with exchanged branches, early returns instead of
+# if/else, locals for sub-expressions, if/else for a conditional expression, a searching loop for `any(...)`)
+# ---------------------------------------------------------------------------------------------------
+def _swap(text, pairs):
+    for a, b in pairs:
+        assert text.count(a) == 1, a
+        text = text.replace(a, b)
+    return text
+
+
+NORM_H = _swap(NORM_BODY, [
+    ("    is_new_pattern = \"{\" not in raw_pattern and \"}\" not in raw_pattern\n",
+     "    is_old_pattern = \"{\" in raw_pattern or \"}\" in raw_pattern\n"),
+    ("        if is_new_pattern:\n"
+     "            v2_vinfo = v2version.parse_version_info(set_version, raw_pattern)\n"
+     "            return v2version.format_version(v2_vinfo, raw_pattern)\n"
+     "        else:\n"
+     "            v1_vinfo = v1version.parse_version_info(set_version, raw_pattern)\n"
+     "            return v1version.format_version(v1_vinfo, raw_pattern)\n",
+     "        if is_old_pattern:\n"
+     "            v1_vinfo = v1version.parse_version_info(set_version, raw_pattern)\n"
+     "            return v1version.format_version(v1_vinfo, raw_pattern)\n\n"
+     "        v2_vinfo = v2version.parse_version_info(set_version, raw_pattern)\n"
+     "        return v2version.format_version(v2_vinfo, raw_pattern)\n")])
+exp("normalize", N, "harmless", "`is_old_pattern = a or b` with exchanged branches, early return instead of else", NORM_BODY, NORM_H)
+
+GATE_O = ("    is_new_pattern = \"{\" not in raw_pattern and \"}\" not in raw_pattern\n\n"
+          "    try:\n        if is_new_pattern:\n            v2version.parse_version_info(new_version, raw_pattern)\n"
+          "        else:\n            v1version.parse_version_info(new_version, raw_pattern)\n"
+          "    except version.PatternError:\n")
+GATE_H = ("    is_new_pattern = not (\"{\" in raw_pattern or \"}\" in raw_pattern)\n\n"
+          "    try:\n        if not is_new_pattern:\n            v1version.parse_version_info(new_version, raw_pattern)\n"
+          "        else:\n            v2version.parse_version_info(new_version, raw_pattern)\n"
+          "    except version.PatternError:\n")
+exp("gate", G, "harmless", "`not (a or b)`, branches exchanged, parsed versions in locals, early `return True`",
+    GATE_O, GATE_H,
+    also=[("    if version.parse_version(new_version) <= version.parse_version(old_version):",
+           "    new_parsed = version.parse_version(new_version)\n    old_parsed = version.parse_version(old_version)\n"
+           "    if new_parsed <= old_parsed:"),
+          ("    if unique:\n        all_tags     = vcs.get_tags(fetch=False, scope=config.TagScope.GLOBAL)\n"
+           "        version_tags = _parse_version_tags(all_tags, raw_pattern, is_new_pattern)\n\n"
+           "        if new_version in version_tags:\n"
+           "            logger.error(\"Invariant violated: New version must be unique accross all branches\")\n"
+           "            return False\n\n    return True\n",
+           "    if not unique:\n        return True\n\n"
+           "    all_tags     = vcs.get_tags(fetch=False, scope=config.TagScope.GLOBAL)\n"
+           "    version_tags = _parse_version_tags(all_tags, raw_pattern, is_new_pattern)\n\n"
+           "    if new_version in version_tags:\n"
+           "        logger.error(\"Invariant violated: New version must be unique accross all branches\")\n"
+           "        return False\n\n    return True\n")])
+exp("start", S2, "harmless", "if/else for the conditional expression, parsed versions in locals",
+    "    scope_str = f\"({cfg.tag_scope.value})\" if not cfg.tag_scope == config.TagScope.DEFAULT else \"\"\n",
+    "    if cfg.tag_scope == config.TagScope.DEFAULT:\n        scope_str = \"\"\n    else:\n        scope_str = f\"({cfg.tag_scope.value})\"\n",
+    also=[("        if version.parse_version(latest_version_tag) <= version.parse_version(cfg.current_version):",
+           "        latest_parsed  = version.parse_version(latest_version_tag)\n"
+           "        current_parsed = version.parse_version(cfg.current_version)\n"
+           "        if latest_parsed <= current_parsed:")])
+# a CALLEE translated by translate_cli.py (regenerated too for this experiment): the commands' ties use it under -v
+E.append(dict(group="update", func="cli.incr_dispatch (callee)", file=C, kind="harmless", with_cli=True,
+              label="`any(...)` as a searching loop with `break`; `if not has_v1_part: return v2…` then the legacy call",
+              edits=[("    has_v1_part = any(\"{\" + part + \"}\" in raw_pattern for part in v1_parts)\n",
+                      "    has_v1_part = False\n    for part in v1_parts:\n        if \"{\" + part + \"}\" in raw_pattern:\n"
+                      "            has_v1_part = True\n            break\n")]))
+
+
 def run(cmd, **kw):
     return subprocess.run(cmd, stdout=subprocess.PIPE, stderr=subprocess.STDOUT, text=True, **kw)
 
@@ -397,6 +464,8 @@ def main():
     for e in E:
         if only and e["group"] not in only and e["func"] not in only:
             continue
+        if os.environ.get("ONLY_LABEL") and os.environ["ONLY_LABEL"] not in e["label"]:
+            continue
         t0 = time.time()
         if os.path.exists(SCRATCH):
             shutil.rmtree(SCRATCH)
@@ -420,6 +489,9 @@ def main():
         os.environ["VERIF_REPO"] = SCRATCH
         rep = []
         files = translate_commands.generate(rep)
+        if e.get("with_cli"):
+            import translate_cli
+            files.update(translate_cli.generate([]))
         del os.environ["VERIF_REPO"]
         errs = [(f, x) for f, _n, x in rep if x is not None]
         changed = write_gen(files)
@@ -444,6 +516,8 @@ def main():
     shutil.rmtree(SCRATCH, ignore_errors=True)
     rep = []
     files = translate_commands.generate(rep)
+    import translate_cli
+    files.update(translate_cli.generate([]))
     write_gen(files)
     b = run(["timeout", "1800", "lake", "build"] + TIES, cwd=LEAN)
     print("restore build:", "ok" if b.returncode == 0 else b.stdout[-2000:])
